@@ -261,6 +261,12 @@ def build_spec(spec, sp):
         if opts['valid_type'] is not None:
             kwargs['valid_type'] = TYPES[opts['valid_type']]
         spec.output_namespace(spec.namespace_separator.join(path), **kwargs)
+    for which, path, new in sp.get('refile', ()):
+        # a port re-filed under another key after the declaration (a subclass' define renaming what its base declared)
+        target = spec.inputs if which == 'input' else spec.outputs
+        for name in path[:-1]:
+            target = target[name]
+        target[new] = target.pop(path[-1])
     for path, attr, value in sp.get('adjust', ()):
         # a spec adjusted after the declaration, through the public setters of the port (a subclass' define does this)
         target = spec.inputs
@@ -274,6 +280,19 @@ def build_spec(spec, sp):
             target.validator = VALIDATORS[value]
         else:
             raise ValueError(attr)
+
+
+def refiled(tree, refile):
+    """The tree after ports were re-filed under another key of their namespace (ns[new] = ns.pop(old)): a port is found,
+    validated and populated under the key it is filed under, whatever name it was created with."""
+    tree = copy.deepcopy(tree)
+    for path, new in refile or ():
+        target = tree
+        for name in path[:-1]:
+            target = target['ports'][name]
+        ports = target['ports']
+        target['ports'] = {(new if key == path[-1] else key): val for key, val in ports.items()}
+    return tree
 
 
 def redeclared(tree, redeclare):
